@@ -2,7 +2,7 @@
 import numpy as np
 import impl
 from gen import data, material
-from .common import tolist
+from .common import tolist, history_differs, transform_primers
 
 LEAN = "PystogVerif.Props.C01"
 LEAN_EXTRA = ["PystogVerif.Props.C01Sg"]
@@ -88,6 +88,14 @@ def evaluate(case):
         scS = max(1.0, float(np.abs(S).max()))
         if np.abs(np.asarray(S2)[1:] - S[1:]).max() > 1e-8 * scS * N or np.asarray(S2)[0] != 1.0:
             fails.append(f"S->g->S on matched grids (N={N}) does not return the input")
+        # partners do not depend on what the Transformer did before (e.g. a Lorch-damped transform between the same grids)
+        if N <= 150:
+            for meth, a in (("F_to_G", (q, f, r)), ("G_to_F", (r, f, q))):
+                if history_differs("Transformer", meth, a, {}, transform_primers(meth, *a)):
+                    fails.append(f"{meth} on matched grids: the result depends on calls the same Transformer served before")
+            for meth, a in (("S_to_g", (q, S, r)), ("g_to_S", (r, np.asarray(g, dtype=float), q))):
+                if history_differs("Transformer", meth, a, dict(kw), transform_primers(meth, *a, kw=kw)):
+                    fails.append(f"{meth} on matched grids: the result depends on calls the same Transformer served before")
         # basis partners: sin(Q_k r_m) <-> delta_m / dr  (pins the 2/pi to Q->r and the bare kernel to r->Q)
         m = case["m"]
         if 0 < m < N:
